@@ -1,6 +1,8 @@
 mod api_tests;
 // A service to compute the minimal diff between two ASTs
 mod ast_differ;
+#[cfg(samlang_verif)]
+pub use ast_differ::verif_hooks as verif_hooks_c16;
 /// A service to maintain up-to-date dependency graph
 mod dep_graph;
 /// A service to perform garbage collection on heaps
